@@ -45,12 +45,44 @@ def add_point_validation(ctx, prog, rule):
     body = loops[val_loop]
     entry = [s for s in f.cfg().get(val_loop, []) if s in body]
 
+    import elems
+
+    def _root_is(e, what):
+        if e is None:
+            return False
+        r = strip(e[0])
+        while r[0] == "cast":
+            r = strip(r[2])
+        if what == "values":
+            return r == ("param", 2)
+        return r[0] == "field" and r[2] == "prototype" and strip(r[1]) == ("param", 1)
+
     def is_dt(s):
-        return leaf_name(s).endswith(".data_type") or ".data_type" in leaf_name(s)
+        e = elems.elem_of(s)
+        return _root_is(e, "prototype") and e[1] == ["data_type"]
 
     def is_val(s):
-        n = leaf_name(s)
-        return ("index(" in n and "arg2" in n) or n.startswith("arg2[") or ("arg2" in n and "data_type" not in n and "prototype" not in n.replace("arg1.prototype", "P").replace("P", "") and "index" in n)
+        e = elems.elem_of(s)
+        return _root_is(e, "values") and e[1] == []
+
+    def side(t):
+        """set of ('val', V) for the integer payload of a value, ('min'|'max', V) for a limit of the entry's data type
+        (an or-pattern arm merges the variants into one phi)"""
+        if t[0] == "phi":
+            out = set()
+            for a in t[1]:
+                out |= side(a)
+            return out
+        x = side1(t)
+        return {x} if x else set()
+
+    def side1(t):
+        e = elems.elem_of(t)
+        if _root_is(e, "values") and len(e[1]) == 1 and e[1][0].endswith(".0"):
+            return ("val", e[1][0].split(".")[0])
+        if _root_is(e, "prototype") and len(e[1]) == 2 and e[1][0] == "data_type" and e[1][1].split(".")[-1] in ("min", "max"):
+            return (e[1][1].split(".")[-1], e[1][1].split(".")[0])
+        return None
     table = {}
     range_ok = {}
     # comparisons value < min / value > max
@@ -61,11 +93,9 @@ def add_point_validation(ctx, prog, rule):
             dl = op_place(t["discr"])
             d = strip(R.place(dl)) if dl else None
             if d and d[0] == "call" and d[1].rsplit("::", 1)[-1] in ("lt", "gt", "le", "ge"):
-                names = [tree_str(strip_deep(x)) for x in d[2][:2]]
-                cmp_blocks.append((bi, d[1].rsplit("::", 1)[-1], names))
+                cmp_blocks.append((bi, d[1].rsplit("::", 1)[-1], [side(x) for x in d[2][:2]]))
             elif d and d[0] == "binop" and d[1] in ("Lt", "Gt", "Le", "Ge"):
-                names = [tree_str(strip_deep(d[2])), tree_str(strip_deep(d[3]))]
-                cmp_blocks.append((bi, d[1].lower(), names))
+                cmp_blocks.append((bi, d[1].lower(), [side(d[2]), side(d[3])]))
     for di, dv in enumerate(VARIANTS):
         for vi, vv in enumerate(VARIANTS):
             g = assume_cfg(f, [(is_dt, di), (is_val, vi)])
@@ -73,8 +103,8 @@ def add_point_validation(ctx, prog, rule):
             cont = find_path(gb, entry, {val_loop}, set())
             table[(dv, vv)] = "continues" if cont else "rejected"
             if dv == vv and dv in ("Integer", "ScaledInteger"):
-                lo = [b for b, op, names in cmp_blocks if any(("data_type.%s.min" % dv) in n for n in names) and any("arg2" in n and ("%s.0" % dv) in n for n in names)]
-                hi = [b for b, op, names in cmp_blocks if any(("data_type.%s.max" % dv) in n for n in names) and any("arg2" in n and ("%s.0" % dv) in n for n in names)]
+                lo = [b for b, op, sides in cmp_blocks if any(("min", dv) in x for x in sides) and any(("val", dv) in x for x in sides)]
+                hi = [b for b, op, sides in cmp_blocks if any(("max", dv) in x for x in sides) and any(("val", dv) in x for x in sides)]
                 both = bool(lo) and bool(hi)
                 # every path of this variant pair through the loop body passes both comparisons ...
                 pass_lo = both and find_path(gb, entry, {val_loop}, set(lo)) is None
